@@ -1056,6 +1056,127 @@ def replay_param_conflict_values(a):
         shutil.rmtree(d, ignore_errors=True)
 
 
+def param_files_fold_step(a):
+    """Validate::execute, the loop that folds the --input-parameters files into one document: one step from an arbitrary
+    state. Region = from the directory-walk `next()` to the next one."""
+    df = struct_fields(a.src, "commands/validate.rs", "DataFile")
+    fre = r"commands::validate::<impl at guard/src/commands/validate\.rs:\d+:\d+: \d+:\d+>::execute"
+    text = mirsmt.find_fn(a.mir, fre)
+    hdr, locs, blocks = mirsmt.parse_fn(text)
+    m = re.search(r"debug primary_path_value => (_\d+);", text)
+    merge_bbs = [bb for bb, sts in blocks.items() if any(re.search(r"PathAwareValue::merge\(", st) for st in sts)]
+    next_bbs = [bb for bb, sts in blocks.items() if any(re.search(r"as Iterator>::next\(", st) and "walkdir" in st for st in sts)]
+    if not m or not merge_bbs or not next_bbs:
+        raise Untranslatable("Validate::execute: parameter-folding loop not found (primary_path_value / merge / walk next)")
+    prim = m.group(1)
+
+    def reaches(start, target):
+        seen, todo = set(), [start]
+        while todo:
+            b = todo.pop()
+            for nx in mirsmt.successors(blocks, b):
+                if nx == target:
+                    return True
+                if nx in seen or nx in next_bbs or nx not in blocks:
+                    continue
+                seen.add(nx)
+                todo.append(nx)
+        return False
+    starts = [bb for bb in next_bbs if any(reaches(bb, mb) for mb in merge_bbs)]
+    if len(starts) != 1:
+        raise Untranslatable(f"Validate::execute: expected one directory-walk loop around merge, found {len(starts)}")
+    start = starts[0]
+    mm = dict(mirexec.COMMON_MODELS)
+    mm.update({"next": mirexec.m_option, "is_file": lambda ex, av: ("bool", ex.fresh("Bool", "isfile")),
+               "has_a_supported_extension": lambda ex, av: ("bool", ex.fresh("Bool", "extok")), "open": m_result_opq,
+               "read_to_string": m_result_opq, "build_data_file": m_result_opq, "merge": m_result_opq, "map_or": lambda ex, av: ex.opq(),
+               "path": lambda ex, av: ex.opq(), "file_name": lambda ex, av: ex.opq(), "to_str": lambda ex, av: ex.opq()})
+    ex = mirexec.Exec(text, a.enums, mirsmt.consts_of(a.mir), mm, {"insert", "contains"}, unroll=1, mir=a.mir, max_paths=20000)
+    p0 = ex.fresh_enum("Option", 2, "prim0", {"Some": ex.opq()})
+    ex.run_from(start, stop_blocks={start}, init_env={prim: p0})
+    a.npaths += len(ex.paths)
+    a.fns.append("commands::validate::Validate::execute (folding of --input-parameters files, one step)")
+    bad, nfile = [], 0
+    for p in ex.paths:
+        nx = calls(p, "next")
+        isf, ext, bdf, mg = calls(p, "is_file"), calls(p, "has_a_supported_extension"), calls(p, "build_data_file"), calls(p, "merge")
+        if not nx:
+            bad.append(pc_term(p.pc))
+            continue
+        cond_file = "(and " + " ".join([f"(= {nx[0][3][2]} 1)"] + [e[3][1] for e in isf + ext]) + ")" if (isf and ext) else "false"
+        callee_err = "(or false " + " ".join(f"(= {e[3][2]} 1)" for e in calls(p, "open") + calls(p, "read_to_string") + bdf + mg if e[3][0] == "enum") + ")"
+        if p.outcome.startswith("stop"):
+            cur = p.env.get(prim)
+            if bdf:
+                nfile += 1
+                pv = field(ex, bdf[0][3][3]["Ok"], df.index("path_value"), "PathAwareValue")
+                if mg:
+                    ok = (len(mg) == 1 and same(mg[0][2][0], p0[3]["Some"]) and same(mg[0][2][1], pv) and cur is not None and cur[0] == "enum"
+                          and cur[2] == "1" and same(cur[3].get("Some"), mg[0][3][3]["Ok"]))
+                    good = f"(and (= {p0[2]} 1) (not {callee_err}))" if ok else "false"
+                else:
+                    ok = cur is not None and cur[0] == "enum" and cur[2] == "1" and same(cur[3].get("Some"), pv)
+                    good = f"(and (= {p0[2]} 0) (not {callee_err}))" if ok else "false"
+                bad.append(f"(and {pc_term(p.pc)} (not {good}))")
+            else:
+                # no file was read in this step: only allowed for an entry that is not a supported parameter file; nothing changes
+                unchanged = cur == p0
+                bad.append(f"(and {pc_term(p.pc)} (not (and (not {cond_file}) {'true' if unchanged else 'false'})))")
+        elif p.outcome == "return":
+            # a return reached while an entry is being handled (the walk yielded Some): only an error may end the run here;
+            # paths on which the walk is exhausted leave the loop and run on to the rest of the function - not constrained
+            r = p.ret
+            if bdf or mg or calls(p, "open"):
+                bad.append(f"(and {pc_term(p.pc)} (= {nx[0][3][2]} 1) (not (and (= {r[2]} 1) {callee_err})))" if (r and r[0] == "enum") else pc_term(p.pc))
+    c = a.discharge("Validate::execute/input-parameters-fold-step", ex, bad,
+                    f"folding the -i files, one directory entry from an arbitrary state ({nfile} file-reading paths): an entry that is a file "
+                    "with a supported extension is always read and built, and its document either becomes the accumulated parameters (none "
+                    "so far) or is merged INTO the accumulated parameters (arguments in that order) whose result becomes the new "
+                    "accumulation; any other entry changes nothing; a read / build / merge error ends the run with Err - no file is skipped")
+    if c:
+        c["replay"] = replay_param_files(a)
+        c["reproduced"] = c["replay"].get("reproduced", False)
+        a.candidates.append(c)
+
+
+def replay_param_files(a):
+    """parameter files given as files and as directories, with equal base names in different directories, in both orders:
+    the verdicts are those of the union document; a key defined twice is an error"""
+    import os, shutil, subprocess, tempfile
+    exe = a.cli()
+    if not exe:
+        return {"reproduced": False, "note": "native build failed"}
+    d = tempfile.mkdtemp(prefix="cfnverif_replay_")
+    out = []
+    try:
+        for sub, txt in (("p1", '{"a": 1}\n'), ("p2", '{"b": 2}\n'), ("p3", '{"a": 9}\n')):
+            os.makedirs(os.path.join(d, sub))
+            open(os.path.join(d, sub, "params.json"), "w").write(txt)
+        open(os.path.join(d, "q.json"), "w").write('{"c": 3}\n')
+        open(os.path.join(d, "data.json"), "w").write('{"z": 0}\n')
+        open(os.path.join(d, "r.guard"), "w").write("rule r { a == 1 }\nrule s { b == 2 }\nrule t { c == 3 }\nrule u { z == 0 }\n")
+        env = dict(os.environ)
+        env["RUST_BACKTRACE"] = "0"
+        J = lambda *x: os.path.join(d, *x)
+        runs = [([J("p1", "params.json"), J("p2", "params.json"), J("q.json")], 0), ([J("p2", "params.json"), J("q.json"), J("p1", "params.json")], 0),
+                ([J("p1"), J("p2"), J("q.json")], 0), ([J("q.json"), J("p2"), J("p1")], 0),
+                ([J("p1", "params.json"), J("p3", "params.json"), J("p2", "params.json"), J("q.json")], "error"),
+                ([J("p3"), J("p1"), J("p2"), J("q.json")], "error")]
+        for mode in ([], ["--structured", "-o", "json", "--show-summary", "none"]):
+            for params, want in runs:
+                cmd = [exe, "validate", "-r", J("r.guard"), "-d", J("data.json")] + mode
+                for pf in params:
+                    cmd += ["-i", pf]
+                p = subprocess.run(cmd, stdout=subprocess.PIPE, stderr=subprocess.PIPE, text=True, timeout=120, env=env)
+                ok = (p.returncode == 0) if want == 0 else (p.returncode not in (0, 19, 101))
+                if not ok:
+                    out.append({"mode": mode[:1] or ["plain"], "parameters": [x[len(d) + 1:] for x in params], "expected": "exit 0 (all four rules PASS on the union)" if want == 0 else "an error exit (key `a` defined twice)",
+                                "observed_exit": p.returncode})
+        return {"reproduced": bool(out), "mismatches": out[:4]}
+    finally:
+        shutil.rmtree(d, ignore_errors=True)
+
+
 def merge_unwrap(a):
     """`--structured` path: the closure that merges the input parameters into every document must not unwrap a failing merge"""
     pat = r"reporters::validate::structured::<impl at guard/src/commands/reporters/validate/structured\.rs:\d+:\d+: \d+:\d+>::evaluate::\{closure#(\d+)\}"
@@ -1228,6 +1349,41 @@ def replay_variables(a):
     return {"reproduced": bool(real), "mismatches": out[:4], "data": data}
 
 
+def param_ctx_resolve(a):
+    """ResolvedParameterContext::resolve_variable: a parameter name answers with the bound argument - whatever it is, also
+    an empty result set - and only other names go to the caller's scope"""
+    ex = a.exec(r"(?:rules::)?eval::<impl at guard/src/rules/eval\.rs:\d+:\d+: \d+:\d+>::resolve_variable",
+                {"get": mirexec.m_option, "resolve_variable": m_result_opq}, unroll=1, max_paths=2000,
+                first_arg_re=r"_1: &mut (?:eval::)?ResolvedParameterContext")
+    a.fns.append("rules::eval::ResolvedParameterContext::resolve_variable")
+    me, name = ex.arg_env["_1"], ex.arg_env["_2"]
+    RPC = struct_fields(a.src, "rules/eval.rs", "ResolvedParameterContext")
+    params = field(ex, me, RPC.index("resolved_parameters"), "HashMap")
+    bad = []
+    for p in ex.paths:
+        r = p.ret
+        gets = calls(p, "get")
+        par = calls(p, "resolve_variable")
+        if p.outcome != "return" or r is None or len(gets) != 1 or not same(gets[0][2][0], params) or not same(gets[0][2][1], name):
+            bad.append(pc_term(p.pc))
+            continue
+        bound = f"(= {gets[0][3][2]} 1)"
+        if par:
+            ok = len(par) == 1 and same(par[0][2][-1], name) and r == par[0][3]
+            bad.append(f"(and {pc_term(p.pc)} (not (and (not {bound}) {'true' if ok else 'false'})))")
+        else:
+            ok = r[0] == "enum" and r[1] == "Result" and r[2] == "0" and same(r[3].get("Ok"), gets[0][3][3].get("Some"))
+            bad.append(f"(and {pc_term(p.pc)} (not (and {bound} {'true' if ok else 'false'})))")
+    c = a.discharge("ResolvedParameterContext::resolve_variable/binding-wins", ex, bad,
+                    "inside a parameterised rule: a name that is a parameter always answers with exactly the bound argument value (no "
+                    "condition on what that value is - an empty selection stays empty); any other name is looked up in the caller's scope "
+                    "under the same name and that answer is passed on unchanged")
+    if c:
+        c["replay"] = replay_param_rules(a)
+        c["reproduced"] = c["replay"].get("reproduced", False)
+        a.candidates.append(c)
+
+
 def param_rule_call(a):
     PR = struct_fields(a.src, "rules/exprs.rs", "ParameterizedRule")
     PC = struct_fields(a.src, "rules/exprs.rs", "ParameterizedNamedRuleClause")
@@ -1297,12 +1453,16 @@ def replay_param_rules(a):
     exe = a.cli()
     if not exe:
         return {"reproduced": False, "note": "native build failed"}
-    data = '{"a": 1,\n "b": 2}\n'
+    data = '{"a": 1,\n "b": 2, "L": [1, 2]}\n'
     defs = "rule chk(p, q) {\n  %p == 1\n  %q == 2\n}\n"
     cases = [(defs + "rule t {\n  chk(a, b)\n}\n", "PASS"), (defs + "rule t {\n  chk(b, a)\n}\n", "FAIL"),
              (defs + "rule t {\n  chk(1, 2)\n}\n", "PASS"), (defs + "rule t {\n  chk(a, 3)\n}\n", "FAIL"),
              (defs + "let p = b\nrule t {\n  chk(a, b)\n}\n", "PASS"),
-             (defs + "rule t {\n  chk(a)\n}\n", "ERROR"), (defs + "rule t {\n  chk(a, b, a)\n}\n", "ERROR")]
+             (defs + "rule t {\n  chk(a)\n}\n", "ERROR"), (defs + "rule t {\n  chk(a, b, a)\n}\n", "ERROR"),
+             # an argument that selects nothing stays an empty selection inside the rule, also when an outer variable has the name
+             ("rule isempty(p) {\n  %p empty\n}\nlet p = a\nrule t {\n  isempty(L[ this == 99 ])\n}\n", "PASS"),
+             ("rule isempty(p) {\n  %p empty\n}\nrule t {\n  isempty(L[ this == 99 ])\n}\n", "PASS"),
+             ("rule nonempty(p) {\n  %p !empty\n}\nlet p = a\nrule t {\n  nonempty(L[ this == 99 ])\n}\n", "FAIL")]
     out = []
     for rules, exp in cases:
         rc, rep, err = a.run_structured(exe, rules, [data])
@@ -1506,9 +1666,9 @@ SITES = {
     "C12": [structured_report, junit_test_case, data_input_wiring, test_get_by_result],
     "C16": [test_generic_report, test_get_by_result, test_get_by_rules],
     "C09": [report_partition, report_rule_listing],
-    "C15": [scope_resolution, param_rule_call],
+    "C15": [scope_resolution, param_rule_call, param_ctx_resolve],
     "C04": [rule_status_semantics],
     "C01": [rule_status_semantics],
-    "C17": [merge_map, merge_unwrap],
+    "C17": [merge_map, merge_unwrap, param_files_fold_step],
     "C08": [merge_unwrap],
 }
